@@ -105,6 +105,11 @@ def rule_one_consumer(m, rep, rid='R2', parts=('receiver', 'callers')):
             k = strip_generics(t.get('callee_full', ''))
             if 'crossbeam_channel::channel::Receiver' in k or 'crossbeam_channel::channel::Iter' in k or \
                     'crossbeam_channel::channel::TryIter' in k or 'crossbeam_channel::channel::IntoIter' in k:
+                # only the worker's own queue matters: another channel (a different message type) is not this consumer
+                inner_ty = m.receiver_ty[m.receiver_ty.find('<') + 1:-1].replace(' ', '') if '<' in m.receiver_ty else None
+                ca = [a_.replace(' ', '') for a_ in t.get('callee_args', [])]
+                if inner_ty and ca and inner_ty not in ca and not any(inner_ty in a_ for a_ in ca):
+                    continue
                 rep.sites()
                 if b.path not in run_region:
                     offenders.append((b, bi, k))
